@@ -1,0 +1,8 @@
+//go:build !verif
+
+package eventlogger
+
+import "context"
+
+// verifPoint is a no-op unless the library is built with the "verif" tag.
+func verifPoint(context.Context, string, NodeID) {}
